@@ -690,3 +690,16 @@ package actor
 //@   ghost at call add#1 before: assert[C11.request.registers-response] arg0 == e.Registry && loglen == entry(loglen)
 //@   ghost at call SendWithSender#1 before: assert[C11.request.sends-after-registering-with-response-as-sender] arg1 == pid && arg2 == msg && arg3 == resp.pid && loglen > entry(loglen)
 //@   ensures[C11.request.response] result != nil && fresh(result) && result.engine == e
+
+//@ func (*Context).Sender()
+//@   props C11 C20
+//@   requires c != nil
+//@   pure
+//@   ensures result == c.sender
+
+// addressedTo(ev, pid): the log entry ev is the outcome of a send to pid
+// (delivery to a processer, dead letter, remote-missing event or remote send).
+//@ pred addressedTo(ev, pid) := (isev(ev, ProcSend) && ev.ProcSend_target == pid) || (isev(ev, RemoteSend) && ev.RemoteSend_pid == pid) ||
+//@      (isev(ev, Broadcast) && ((istype(ev.Broadcast_msg, DeadLetterEvent) && ev.Broadcast_msg.(DeadLetterEvent).Target == pid) || (istype(ev.Broadcast_msg, EngineRemoteMissingEvent) && ev.Broadcast_msg.(EngineRemoteMissingEvent).Target == pid)))
+//@ pred carries(ev, m) := (isev(ev, ProcSend) && ev.ProcSend_msg == m) || (isev(ev, RemoteSend) && ev.RemoteSend_msg == m) ||
+//@      (isev(ev, Broadcast) && ((istype(ev.Broadcast_msg, DeadLetterEvent) && ev.Broadcast_msg.(DeadLetterEvent).Message == m) || (istype(ev.Broadcast_msg, EngineRemoteMissingEvent) && ev.Broadcast_msg.(EngineRemoteMissingEvent).Message == m)))
